@@ -146,3 +146,108 @@ Proof.
   intros Hs H1 H2 H3 Hl. unfold unpack1. rewrite Hl, Z.eqb_refl. cbn [negb].
   rewrite sp_dec_is_be_dec, Hs. destruct c; try congruence; reflexivity.
 Qed.
+
+(* ---------- container writers up to the element loop, as functions of len(value) *)
+Lemma gen_header_spec (g : Z -> res (list byte)) (t : Z) n :
+  (forall m, g m = (let out := @nil byte in
+                    if m >? gen_ser_MAX_ARRAY_LENGTH then Err EValue
+                    else do w <- spack [FH] [t]; let out := out ++ w in
+                         do w <- wrap_struct (gen_serialize_int m); let out := out ++ w in Ok out)) ->
+  frange FH t = true -> 0 <= n ->
+  match g n with
+  | Ok hd => n <= MAXA /\ exists h, enc_int n = SOk h /\ hd = tag t ++ h
+  | Err e => e = EValue /\ MAXA < n
+  end.
+Proof.
+  intros Hg Ht Hn. rewrite Hg. cbn zeta. rewrite Z.gtb_ltb. change gen_ser_MAX_ARRAY_LENGTH with MAXA.
+  destruct (MAXA <? n) eqn:E; [split; [reflexivity|lia]|].
+  assert (Hr : 0 <= n < 2 ^ 63) by (unfold MAXA in *; lia).
+  destruct (gen_serialize_int_len _ Hr) as [h [Hgi Hm]].
+  unfold spack, pack1, bind. rewrite Ht, Hgi. cbn [wrap_struct app].
+  split; [lia|]. exists h. split; [exact Hm|].
+  rewrite app_nil_r. unfold tag. now rewrite sp_be_is_be_enc.
+Qed.
+
+Lemma gen_seq_header_enc fc reg l :
+  match gen_serialize_seq_header (len l) with
+  | Ok hd => enc fc reg (VList l) = (dos body <- mapM (enc fc reg) l; SOk (hd ++ concat body))
+             /\ enc fc reg (VTuple l) = (dos body <- mapM (enc fc reg) l; SOk (hd ++ concat body))
+  | Err e => e = EValue /\ enc fc reg (VList l) = SErr (SE EValue) /\ enc fc reg (VTuple l) = SErr (SE EValue)
+  end.
+Proof.
+  pose proof (gen_header_spec gen_serialize_seq_header gen_SBT_seq_t (len l) (fun m => eq_refl) eq_refl) as H.
+  assert (Hn : 0 <= len l) by (unfold len; lia). specialize (H Hn).
+  destruct (gen_serialize_seq_header (len l)) as [hd|e].
+  - destruct H as [Hle [h [Hh ->]]]. cbn [enc].
+    replace (MAXA <? len l) with false by lia. rewrite Hh. cbn [sbind].
+    change gen_SBT_seq_t with 16.
+    split; destruct (mapM (enc fc reg) l); cbn [sbind]; now rewrite ?app_assoc.
+  - destruct H as [-> Hlt]. cbn [enc]. replace (MAXA <? len l) with true by lia. repeat split.
+Qed.
+
+Lemma gen_set_header_enc fc reg l :
+  match gen_serialize_set_header (len l) with
+  | Ok hd => enc fc reg (VSet l) = (dos body <- mapM (enc fc reg) l; SOk (hd ++ concat body))
+  | Err e => e = EValue /\ enc fc reg (VSet l) = SErr (SE EValue)
+  end.
+Proof.
+  pose proof (gen_header_spec gen_serialize_set_header gen_SBT_set_t (len l) (fun m => eq_refl) eq_refl) as H.
+  assert (Hn : 0 <= len l) by (unfold len; lia). specialize (H Hn).
+  destruct (gen_serialize_set_header (len l)) as [hd|e].
+  - destruct H as [Hle [h [Hh ->]]]. cbn [enc].
+    replace (MAXA <? len l) with false by lia. rewrite Hh. cbn [sbind].
+    change gen_SBT_set_t with 18.
+    destruct (mapM (enc fc reg) l); cbn [sbind]; now rewrite ?app_assoc.
+  - destruct H as [-> Hlt]. cbn [enc]. replace (MAXA <? len l) with true by lia. repeat split.
+Qed.
+
+Lemma gen_map_header_enc fc reg kv :
+  match gen_serialize_map_header (len kv) with
+  | Ok hd => enc fc reg (VDict kv) =
+             (dos body <- mapM (fun p => let '(k, x) := p in dos a <- enc fc reg k; dos b <- enc fc reg x; SOk (a ++ b)) kv;
+              SOk (hd ++ concat body))
+  | Err e => e = EValue /\ enc fc reg (VDict kv) = SErr (SE EValue)
+  end.
+Proof.
+  pose proof (gen_header_spec gen_serialize_map_header gen_SBT_map_t (len kv) (fun m => eq_refl) eq_refl) as H.
+  assert (Hn : 0 <= len kv) by (unfold len; lia). specialize (H Hn).
+  destruct (gen_serialize_map_header (len kv)) as [hd|e].
+  - destruct H as [Hle [h [Hh ->]]]. cbn [enc].
+    replace (MAXA <? len kv) with false by lia. rewrite Hh. cbn [sbind].
+    change gen_SBT_map_t with 17.
+    match goal with |- sbind ?m _ = sbind ?m' _ => change m' with m; destruct m end; cbn [sbind]; now rewrite ?app_assoc.
+  - destruct H as [-> Hlt]. cbn [enc]. replace (MAXA <? len kv) with true by lia. repeat split.
+Qed.
+
+(* ---------- decoder length guards: what the source checks between `length = deserialize_value(...)` and the use of
+   length is the model's dec_len (is_int = isinstance(length, int): bool counts) *)
+Definition guard_spec (cap : Z) (is_int : bool) (n : Z) : res Z :=
+  if negb is_int then Err EType else if cap <? n then Err EValue else Ok n.
+
+Lemma gen_guards :
+  (forall b n, gen_deserialize_string_guard b n = guard_spec MAXB b n) /\
+  (forall b n, gen_deserialize_bytes_guard b n = guard_spec MAXB b n) /\
+  (forall b n, gen_deserialize_map_guard b n = guard_spec MAXA b n) /\
+  (forall b n, gen_deserialize_seq_guard b n = guard_spec MAXA b n) /\
+  (forall b n, gen_deserialize_set_guard b n = guard_spec MAXA b n).
+Proof.
+  repeat split; intros b n; unfold guard_spec;
+    [unfold gen_deserialize_string_guard|unfold gen_deserialize_bytes_guard|unfold gen_deserialize_map_guard
+     |unfold gen_deserialize_seq_guard|unfold gen_deserialize_set_guard];
+    rewrite Z.gtb_ltb; reflexivity.
+Qed.
+
+(* dec_len, the length step of the model's decoder, is "decode a value, then that guard" *)
+Definition guard_M (g : bool -> Z -> res Z) (lv : value) : M Z :=
+  match (match as_len lv with None => g false 0 | Some n => g true n end) with
+  | Ok n => ret n
+  | Err e => fail (SE e)
+  end.
+
+Lemma dec_len_is_guard (sub : M value) cap s :
+  dec_len sub cap s = mbind sub (guard_M (guard_spec cap)) s.
+Proof.
+  unfold dec_len, mbind. destruct (sub s) as [[lv|e] s']; [|reflexivity].
+  unfold guard_M, guard_spec. destruct (as_len lv) as [n|]; cbn [negb]; [|reflexivity].
+  destruct (cap <? n); reflexivity.
+Qed.
